@@ -67,6 +67,7 @@ func checkBreadthFirst(r *Run) {
 	if fd == nil {
 		r.Fatal("traversal.Traversal.BreadthFirst not found")
 	}
+	checkWorkerContext(r, p, fd)
 	// roles
 	var counter, wg, cancel, writerC, completionC types.Object
 	ast.Inspect(fd.Body, func(n ast.Node) bool {
@@ -250,8 +251,31 @@ func checkBreadthFirst(r *Run) {
 		ast.Inspect(coord.Body, func(n ast.Node) bool {
 			switch x := n.(type) {
 			case *ast.IfStmt:
-				txt := strings.ReplaceAll(exprString(r.Fset, x.Cond), " ", "")
-				if strings.Contains(txt, "!ok") && strings.Contains(txt, ".Load()==0") && strings.Contains(txt, "||") {
+				// `!<received-ok> || <counter>.Load() == 0`
+				closedLeaf, zeroLeaf := false, false
+				if be, isOr := ast.Unparen(x.Cond).(*ast.BinaryExpr); isOr && be.Op == token.LOR {
+					for _, leaf := range []ast.Expr{be.X, be.Y} {
+						switch l := ast.Unparen(leaf).(type) {
+						case *ast.UnaryExpr:
+							if _, isID := ast.Unparen(l.X).(*ast.Ident); isID && l.Op == token.NOT {
+								closedLeaf = true
+							}
+						case *ast.BinaryExpr:
+							if l.Op == token.EQL {
+								for _, pair := range [][2]ast.Expr{{l.X, l.Y}, {l.Y, l.X}} {
+									if call, isCall := ast.Unparen(pair[0]).(*ast.CallExpr); isCall {
+										if sel, isSel := call.Fun.(*ast.SelectorExpr); isSel && sel.Sel.Name == "Load" {
+											if tv, has := info.Types[pair[1]]; has && tv.Value != nil && tv.Value.ExactString() == "0" {
+												zeroLeaf = true
+											}
+										}
+									}
+								}
+							}
+						}
+					}
+				}
+				if closedLeaf && zeroLeaf {
 					for _, st := range x.Body.List {
 						if b, ok := st.(*ast.BranchStmt); ok && b.Tok == token.BREAK {
 							okCond = true
@@ -795,4 +819,73 @@ func checkTrunkWrites(r *Run) {
 		}
 	}
 	checkFile(gp)
+}
+
+// checkWorkerContext (R2, cancellation clause): a failing worker cancels the traversal context so that its siblings
+// stop.  That only works if everything a worker blocks in — the caller-supplied driver and the channel helpers — is
+// given that derived context, not the caller's own: a driver that honours its context keeps running on the parent
+// context after a sibling failed, and BreadthFirst hangs in Wait instead of returning the first error.
+func checkWorkerContext(r *Run, p *packages.Package, fd *ast.FuncDecl) {
+	info := p.TypesInfo
+	var derived types.Object
+	ast.Inspect(fd.Body, func(n ast.Node) bool {
+		spec, ok := n.(*ast.ValueSpec)
+		if ok && len(spec.Values) == 1 && len(spec.Names) == 2 {
+			if call, ok := spec.Values[0].(*ast.CallExpr); ok {
+				if fn := calleeOf(info, call); fn != nil && funcFullName(fn) == "context.WithCancel" {
+					derived = info.Defs[spec.Names[0]]
+				}
+			}
+		}
+		if as, ok := n.(*ast.AssignStmt); ok && len(as.Rhs) == 1 && len(as.Lhs) == 2 {
+			if call, ok := as.Rhs[0].(*ast.CallExpr); ok {
+				if fn := calleeOf(info, call); fn != nil && funcFullName(fn) == "context.WithCancel" {
+					if id, ok := as.Lhs[0].(*ast.Ident); ok {
+						derived = info.Defs[id]
+					}
+				}
+			}
+		}
+		return true
+	})
+	if derived == nil {
+		r.Undecide("C17-R2: BreadthFirst derives no cancelable context (context.WithCancel)")
+		return
+	}
+	n := 0
+	ast.Inspect(fd.Body, func(x ast.Node) bool {
+		call, ok := x.(*ast.CallExpr)
+		if !ok || len(call.Args) == 0 {
+			return true
+		}
+		// first argument is a context.Context
+		if t := info.TypeOf(call.Args[0]); t == nil || namedName(t) != "Context" {
+			return true
+		}
+		what := ""
+		if sel, ok := ast.Unparen(call.Fun).(*ast.SelectorExpr); ok {
+			if s := info.Selections[sel]; s != nil && s.Kind() == types.FieldVal {
+				if _, isFunc := s.Obj().Type().Underlying().(*types.Signature); isFunc {
+					what = "the plan's " + sel.Sel.Name
+				}
+			}
+		}
+		if fn := calleeOf(info, call); fn != nil && fn.Pkg() != nil && strings.HasSuffix(fn.Pkg().Path(), "/util/channels") {
+			what = "channels." + fn.Name()
+		}
+		if what == "" {
+			return true
+		}
+		n++
+		construct := "BreadthFirst:" + what + "#" + itoa(n)
+		if id, ok := ast.Unparen(call.Args[0]).(*ast.Ident); ok && info.Uses[id] == derived {
+			r.Pass("C17-R2-join-cancel", construct, call.Pos(), "runs on the cancelable traversal context")
+		} else {
+			r.Fail("C17-R2-join-cancel", construct, call.Pos(), "%s is called with %s instead of the traversal context that a failing worker cancels: after a sibling's failure this call keeps running (or blocking) on the caller's context, and BreadthFirst waits for it instead of returning the error promptly", what, exprString(r.Fset, call.Args[0]))
+		}
+		return true
+	})
+	if n < 4 {
+		r.Undecide("C17-R2: expected the driver call and the channel helpers in BreadthFirst, found %d context-taking calls", n)
+	}
 }
